@@ -11,12 +11,153 @@ Import ListNotations. Open Scope Q_scope.
 '''
 
 
+def _autograd_agop(kern, C, Z0, A, M, root, Lb, q, p, diag):
+    """Statement-level oracle, float64, nothing of the library's gradient code: the predictor is
+           f_l(z) = sum_i A[i, l] k(c_i, z),    k = exp(-dist(c_i, z)^q / Lb^q)
+       with the DOCUMENTED distance of each kernel under the current feature matrix:
+           l2_high_dim (consumes M itself):   dist^2 = (c - z)^T M (c - z)            (M a vector = diagonal matrix, None = identity)
+           l2 (consumes the stored root R):   dist   = ||(c - z) R||_2
+           lpq:                               dist   = ||(c - z) R||_p
+           l1 (product kernel):               dist^q = sum_k |((c - z) R)_k|^q
+       Gradients are taken by automatic differentiation at every row of Z0, each point's own kernel term (and that of an exactly
+       repeated row) left out; returned: sum over points and outputs of g g^T (diagonal mode: of g*g), divided by its largest entry."""
+    C = C.double(); Z0 = Z0.double(); A = A.double().reshape(C.shape[0], -1)
+    Z = Z0.clone().requires_grad_(True)
+    U = C[:, None, :] - Z[None, :, :]                                     # (n_centers, n_points, d)
+    own = ((C[:, None, :] - Z0[None, :, :]).abs().amax(-1) == 0).double()  # own term / exactly repeated row
+    if kern == 'l2_high_dim':
+        Mm = None if M is None else M.double()
+        if Mm is None:
+            d2 = (U * U).sum(-1)
+        elif Mm.dim() == 1:
+            d2 = (U * U * Mm[None, None, :]).sum(-1)
+        else:
+            d2 = ((U @ Mm) * U).sum(-1)
+        Dq = torch.sqrt(d2 + own) ** q          # the entries under `own` are dropped below; the shift keeps sqrt'(0) out of the graph
+    else:
+        R = None if root is None else root.double()
+        V = U if R is None else (U * R[None, None, :] if R.dim() == 1 else U @ R)
+        if kern == 'l2':
+            Dq = torch.sqrt((V * V).sum(-1) + own) ** q
+        elif kern == 'lpq':
+            Dq = ((V.abs() ** p).sum(-1) + own) ** (q / p)
+        elif kern == 'l1':
+            Dq = (V.abs() ** q).sum(-1)
+        else:
+            raise ValueError(kern)
+    K = torch.exp(-Dq / Lb ** q) * (1 - own)
+    d = C.shape[1]
+    raw = torch.zeros(d, d, dtype=torch.float64)
+    for l in range(A.shape[1]):
+        F = (A[:, l][:, None] * K).sum()                                   # sum_j f_l(z_j): z_j only enters column j
+        (G,) = torch.autograd.grad(F, Z, retain_graph=True)
+        raw += G.t() @ G
+    if diag:
+        dg = torch.diagonal(raw)
+        return dg / dg.max()
+    return raw / raw.max()
+
+
+def _rounds_regime(ck, xr, rng):
+    """Several rounds (iteration budgets 2..4): the feature matrix learned at EVERY round — and the AGOP reported for the selected model — is compared
+    with the normalised AGOP of the predictor the object holds AT THAT MOMENT (its centers, coefficients, bandwidth and CURRENT feature matrix / root, which
+    from the second round on is no longer the identity), gradients by automatic differentiation of the documented kernel.  All four kernels with a closed
+    distance form, including the memory-light L2 kernel (which consumes M itself, not a root), diagonal and full mode, 1..3 outputs, accumulation batch
+    sizes None / 1 / 7 / n, exponents 1 / 1.3 / 1.7, early stopping on and off."""
+    T = lambda a: torch.tensor(a, dtype=torch.float64)
+    K4 = ['l2_high_dim', 'l2', 'l1', 'lpq']
+    worst = 0.0
+    for i in range(ck.n(16, 48)):
+        kern = K4[i % 4]
+        diag = (i % 3 != 0)                       # two thirds diagonal: that is where vector-valued M and the root / no-root conventions can be confused
+        iters = 2 + (i // 2) % 3
+        nout = 1 + (i // 4 + i) % 3
+        q = [1.0, 1.3, 1.7][(i // 4) % 3]
+        p = [1.5, 2.0][(i // 8) % 2]
+        if kern == 'lpq':
+            q = min(q, p)
+        n = int(rng.integers(12, 21)); d = int(rng.integers(3, 6))
+        Lb = [2.0, 3.0, 5.0][i % 3]
+        bsz = [None, 1, 7, n][(i // 3) % 4]
+        early = (i % 5 == 4)
+        reg = [1e-3, 1e-2][i % 2]
+        X = rng.standard_normal((n, d)) * np.array([1.0, 0.7, 1.4, 1.0, 0.5])[:d]       # unequal feature scales: M moves away from the all-ones vector at once
+        W = rng.standard_normal((d, nout)) * (rng.random((d, 1)) < 0.7)
+        Y = np.sin(X @ W) + 0.3 * (X ** 2) @ np.abs(W) + 0.05 * rng.standard_normal((n, nout))
+        nv = 6
+        Xv = rng.standard_normal((nv, d)) * np.array([1.0, 0.7, 1.4, 1.0, 0.5])[:d]
+        Yv = np.sin(Xv @ W) + 0.3 * (Xv ** 2) @ np.abs(W)
+        desc = dict(kind='rounds', i=i, kernel=kern, diag=diag, iters=iters, nout=nout, exponent=q, norm_p=(p if kern == 'lpq' else None), n=n, d=d,
+                    bandwidth=Lb, M_batch_size=bsz, early_stop_rfm=early, reg=reg, seed=ck.seed)
+        xr.seed_all(1440 + i + ck.seed)
+        m = xr.RealRFM(kernel=kern, iters=iters, bandwidth=Lb, exponent=q, device='cpu', diag=diag, verbose=False, tuning_metric='mse',
+                       **(dict(norm_p=p) if kern == 'lpq' else {}))
+        calls = []
+        orig_fit_M = m.fit_M
+        def spy(samples, *a, _m=m, _orig=orig_fit_M, _calls=calls, **kw):
+            st = dict(samples=samples.detach().clone(), centers=_m.centers.detach().clone(), weights=_m.weights.detach().clone(),
+                      M=None if _m.M is None else _m.M.detach().clone(), root=None if _m.sqrtM is None else _m.sqrtM.detach().clone(),
+                      bandwidth=float(_m.kernel_obj.bandwidth), inplace=kw.get('inplace', True))
+            r = _orig(samples, *a, **kw)
+            st['result'] = (_m.M if st['inplace'] else r).detach().clone()
+            _calls.append(st)
+            return r
+        m.fit_M = spy
+        try:
+            with xr.quiet():
+                Ms = m.fit((T(X), T(Y)), (T(Xv), T(Yv)), iters=iters, reg=reg, verbose=False, return_Ms=True, get_agop_best_model=True,
+                           M_batch_size=bsz, early_stop_rfm=early)
+        except Exception as e:
+            ck.violation(f'fit raised {e!r} on {desc}', dict(desc), key='fit-raise'); continue
+        finally:
+            m.fit_M = orig_fit_M
+        ck.count(f'rounds: kernel={kern}, {"diag" if diag else "full"}'); ck.count(f'rounds: iteration budget {iters}')
+        rounds_seen = 0
+        for r, st in enumerate(calls):
+            what_r = f'round {r + 1}' if st['inplace'] else 'the selected model (agop_best_model)'
+            amax = float(st['weights'].abs().max())
+            # float64 throughout.  The memory-light kernel does not mask a point's own term (computed self distance of order sqrt(ulp), see the comment in run());
+            # what is left of it is proportional to the coefficients.  Everything else agrees to ~1e-12; a wrong gradient / matrix moves entries by 1e-3..1.
+            tol = 1e-6 + (1e-7 * amax if kern == 'l2_high_dim' else 0.0) + (1.1e-8 if (m.use_sqrtM and not diag) else 0.0)
+            want = _autograd_agop(kern, st['centers'], st['samples'], st['weights'], st['M'], st['root'], st['bandwidth'], q, p, diag)
+            got = st['result'].double()
+            trivial_M = st['M'] is None
+            rounds_seen += 0 if trivial_M else 1
+            cdesc = dict(desc, call=r, inplace=st['inplace'], current_M_is_identity=trivial_M)
+            ck.case(cdesc, nontrivial=not trivial_M)
+            if got.shape != want.shape or not bool(torch.isfinite(got).all()):
+                ck.violation(f'feature matrix of {what_r} has shape {tuple(got.shape)} / non-finite entries on {desc}', dict(cdesc, got=got.tolist()),
+                             key=json.dumps(dict(site='agop', what='rounds-shape'))); continue
+            dev = float((got - want).abs().max())
+            worst = max(worst, dev / tol) if dev == dev else worst
+            if not (dev <= tol):
+                cur = 'identity' if trivial_M else [round(v, 6) for v in (st['M'].double().flatten().tolist())]
+                ck.violation(f'the feature matrix learned at {what_r} differs by {dev:.3g} (tolerance {tol:.2g}) from the normalised AGOP of the current predictor '
+                             f'(automatic derivatives of the documented {kern} kernel under the current feature matrix {cur}, own terms left out): '
+                             f'library {[round(v, 6) for v in got.flatten().tolist()]} vs {[round(v, 6) for v in want.flatten().tolist()]} on {desc}',
+                             dict(cdesc, X=X.tolist(), Y=Y.tolist(), X_val=Xv.tolist(), Y_val=Yv.tolist(), dev=dev, tol=tol, got=got.tolist(), want=want.tolist(),
+                                  current_M=None if trivial_M else st['M'].tolist(), coefficients=st['weights'].tolist(), bandwidth=st['bandwidth']),
+                             key=json.dumps(dict(site='agop', what='rounds-independent-gradient', kernel=kern, diag=diag)))
+        ck.count('rounds: AGOP taken under a feature matrix other than the identity', rounds_seen)
+        # what fit() hands back per round is what that round learned; the reported AGOP is the last (not in place) call
+        inpl = [st for st in calls if st['inplace']]
+        if Ms is not None and len(Ms) <= len(inpl):
+            for r, rec in enumerate(Ms):
+                if rec is not None and float((rec.double() - inpl[r]['result'].double()).abs().max()) > 1e-12:
+                    ck.violation(f'the matrix recorded for round {r + 1} (return_Ms) is not the one that round learned on {desc}', dict(desc, round=r),
+                                 key=json.dumps(dict(site='agop', what='recorded-rounds')))
+                    break
+    ck.notes.append(f'rounds regime: largest deviation from the automatic-derivative AGOP = {worst:.3g} x tolerance')
+
+
 def run(ck):
     from harness import xr
     ck.rule = ("small fitted leaf models (all CPU kernels, diagonal/full, 1-3 outputs, centring on/off): fit_M(inplace=False) for accumulation batch sizes "
                "1..n; the implementation's OWN get_function_grads output (exact rationals) is fed to the Coq Q model (sum of outer products, batches, "
                "centring, normalisation by the largest entry) and compared with the implementation's M; batch independence, symmetry, PSD, max entry, "
-               "sqrtM^2 = M, finiteness; agop_best_model vs the returned predictor. non-trivial = >= 2 batches; distinct by configuration hash")
+               "sqrtM^2 = M, finiteness; agop_best_model vs the returned predictor; "
+               "multi-round fits (budgets 2..4, l2 / memory-light l2 / l1 / lpq, diagonal and full): every round's matrix and the reported AGOP vs automatic derivatives of the "
+               "documented kernel under the CURRENT (non-identity) feature matrix. non-trivial = >= 2 batches; distinct by configuration hash")
     ck.trusted += ['Coq 8.16.1 kernel + vm_compute', 'float -> Q printing', 'the gradient values themselves are validated under C04']
     ck.assumptions += ['SVD-based matrix root: contract R R = M checked numerically', 'tolerance 1e-9 (float64); 1e-6 for the memory-light kernel (own-term cancellation noise, see comment in harness/c14.py)',
                        'n <= total_points_to_sample (20000): no truncation of the batch list']
@@ -251,6 +392,7 @@ def run(ck):
             psd_tol = 1e-9 if yscale != 1e-5 else 2e-6
             if np.max(np.abs(Mm - Mm.T)) > 1e-12 or np.linalg.eigvalsh((Mm + Mm.T) / 2).min() < -psd_tol or abs(Mm.max() - 1.0) > 1e-6:
                 ck.violation(f'stored feature matrix is not symmetric PSD with largest entry one on {desc}', dict(desc), key=json.dumps(dict(site='agop', what='converging-structure')))
+    _rounds_regime(ck, xr, rng)
     res = ck.run_bool_cases('agop', HEADER, cases, shard=12)
     bad = [meta[k] for k, v in res.items() if v is not True]
     ck.obligation(f'correspondence: fit_M for {len(cases)} (model, batch size) pairs == Coq Q model on the gradients the implementation itself returned', 'correspondence',
